@@ -107,11 +107,12 @@ def mark_noinline(src, dst, pats):
     names = re.findall(r'^define [^@]*@("[^"]+"|[\w.$]+)\(', ll, re.M)
     dem = demangle([n.strip('"') for n in names])
     stub = {n for n, d in zip(names, dem) if any(p.search(d) for p in rx)}
+    always = set(re.findall(r'^attributes (#\d+) = \{[^}]*\balwaysinline\b', ll, re.M))
     out = []
     for line in ll.split('\n'):
         if line.startswith('define '):
             m = re.match(r'^define [^@]*@("[^"]+"|[\w.$]+)\(', line)
-            if m and m.group(1) in stub:
+            if m and m.group(1) in stub and not (set(re.findall(r'#\d+', line)) & always):
                 line2 = re.sub(r'\) ((?:unnamed_addr |local_unnamed_addr )?)(#\d+)', r') \1noinline \2', line, count=1)
                 if line2 == line:  # no attribute group
                     line2 = re.sub(r'\)( (?:unnamed_addr |local_unnamed_addr )?)(comdat|align|personality|\{|!dbg)', r')\1noinline \2', line, count=1)
